@@ -16,6 +16,15 @@ fn run_fe(fe: Fe, buf: BufKind, stream: &[u8]) -> Vec<Obs> {
     fe::run_plain(fe, buf, stream, 0)
 }
 
+/// the push decoder handed a buffer that still holds data (Decoder::from_buf)
+fn run_fe_dirty(fe: Fe, buf: BufKind, stream: &[u8], dirty: bool) -> Vec<Obs> {
+    if dirty && fe == Fe::Push {
+        fe::drive_push_dirty_kind(buf, stream, &[0xd1, 0x00, 0x1b, 0xd4, 0xd5, 0x00, 0x00, 0xd8])
+    } else {
+        run_fe(fe, buf, stream)
+    }
+}
+
 impl Prop for C16Prop {
     fn id(&self) -> &'static str {
         "C16"
@@ -87,6 +96,9 @@ impl Prop for C16Prop {
         l.segs.push(Seg::Frame { payload: Hx(m), enc: gen::gen_enc(rng), faults: vec![] });
         l.segs.push(Seg::Frame { payload: Hx(m2), enc: gen::gen_enc(rng), faults: vec![] });
         let _ = tier;
+        if fe == Fe::Push && rng.chance(1, 2) {
+            l.knobs.insert("from_buf_dirty".into(), 1);
+        }
         Scenario::Link(l)
     }
 
@@ -131,7 +143,11 @@ impl Prop for C16Prop {
             let mut stream = f1.clone();
             let f2 = refenc(&m2);
             stream.extend_from_slice(&f2);
-            let obs = run_fe(l.fe, *bk, &stream);
+            let dirty = l.knob("from_buf_dirty") == 1;
+            if dirty && l.fe == Fe::Push {
+                st.bump("probe", "from_buf-dirty");
+            }
+            let obs = run_fe_dirty(l.fe, *bk, &stream, dirty);
             if first_obs.is_empty() {
                 first_obs = obs.clone();
             }
